@@ -291,6 +291,10 @@ func c02Leaf(t *rapid.T, i int) *Leaf {
 	default:
 		l.Operand = []string{fmt.Sprintf("VAR_%d", i)}
 	}
+	if rapid.IntRange(0, 7).Draw(t, "multitok") == 0 {
+		// operands may be any token sequence: FLAG_BASE + 3
+		l.Operand = append(l.Operand, "+", fmt.Sprint(i))
+	}
 	if kind == "var" {
 		switch rapid.IntRange(0, 5).Draw(t, "form") {
 		case 0:
@@ -312,6 +316,9 @@ func c02Leaf(t *rapid.T, i int) *Leaf {
 				l.Value = []string{fmt.Sprintf("-%d", v+1)}
 			default:
 				l.Value = []string{fmt.Sprint(v)}
+			}
+			if rapid.IntRange(0, 7).Draw(t, "multival") == 0 {
+				l.Value = []string{fmt.Sprintf("BASE_%d", v), "+", fmt.Sprint(i), "*", "2"}
 			}
 			l.Wrap = rapid.IntRange(0, 3).Draw(t, "wrap") == 0
 		}
@@ -373,7 +380,7 @@ func init() {
 	register("C02", "TestC02_Truth", checkC02, c02Src)
 }
 
-const c02Rule = "a condition E (random tree of 1-8 leaves, thorough 12, over && || ! and redundant parentheses; every leaf form: flag/defeated bare, negated, ==/!= TRUE/FALSE; var bare, negated, six operators, value(); literal, hex, negative and symbolic values) placed in if/else, elif, while, do-while; every leaf reads its own flag/var/trainer; for EVERY truth assignment to the leaves (2^n, 256 sampled above n=8) a scripted world realises it (vars below/at/above the comparison value) and the assembly run must equal the reference run, optimize off and on; plus exhaustive enumeration of all trees up to 3 leaves (thorough 4). non-trivial = >=3 leaves mixing && and ||, or a negated group, or a redundant parenthesis right after &&; distinct by source text"
+const c02Rule = "a condition E (random tree of 1-8 leaves, thorough 12, over && || ! and redundant parentheses; every leaf form: flag/defeated bare, negated, ==/!= TRUE/FALSE; var bare, negated, six operators, value(); literal, hex, negative, symbolic, var-id-range and multi-token values; multi-token operands) placed in if/else, elif, while, do-while; every leaf reads its own flag/var/trainer; for EVERY truth assignment to the leaves (2^n, 256 sampled above n=8) a scripted world realises it (vars below/at/above the comparison value) and the assembly run must equal the reference run, optimize off and on; plus exhaustive enumeration of all trees up to 3 leaves (thorough 4). non-trivial = >=3 leaves mixing && and ||, or a negated group, or a redundant parenthesis right after &&; distinct by source text"
 
 func TestC02_Regress(t *testing.T) { runRegress(t, "C02") }
 
